@@ -324,6 +324,15 @@ def r6_shared_walker(ctx):
         yield o
 
 
+def r7_shared_syntax(ctx):
+    """a broken syntax note is one of the faults of the catalogue: the semantics of the note evaluation and its routing
+    are the obligations of C14.R3/R4"""
+    from . import c14
+    for fn in (c14.r3_semantics, c14.r4_routing):
+        for o in fn(ctx):
+            yield o
+
+
 RULES = [
     Rule('C03.R1', 'element reports dominated by a fresh add_ele in the same activation', r1_element_attachment, floor=15),
     Rule('C03.R2', 'walker segment reports dominated by add_seg in the same function', r2_segment_attachment, floor=3),
@@ -331,4 +340,5 @@ RULES = [
     Rule('C03.R4', 'message/code agreement with the X12 code meanings', r4_codes, floor=15),
     Rule('C03.R5', 'shared with C15.R3/R6: length atoms measure the right string with the right code; delegated checks always run', r5_shared_element_checks, floor=19),
     Rule('C03.R6', 'shared with C02.R5: walker counting/ordering atoms (pending mandatory nodes are reported, limits, positions)', r6_shared_walker, floor=10),
+    Rule('C03.R7', 'shared with C14.R3/R4: syntax-note semantics and routing', r7_shared_syntax, floor=15),
 ]
